@@ -1125,6 +1125,8 @@ def partitions(tier):
                          brty == "106A" and q in ("DEP:0", "DEP:1") else ["timeout", "DEP:1"]]
                 if q == "DEP:3":
                     continue
+            elif q[:3] == "DEP":
+                steps = [[q], ["timeout", "DEP:1", "DSL:0", "raw:0"], ["timeout"]]
             else:
                 steps = [[q], REQ2, ["timeout", "DEP:1"]]
             add("dep-tx:%s:%s" % (brty, q), "dep_target_session", brty=brty,
@@ -1271,7 +1273,7 @@ BOUNDS = {
     "sequences",
     "thorough": "as quick with: pdu.decode 0..9 octets, aggregates up to 3 sub-PDUs / 9 "
     "octets; dep PDU tails 0..7, raw frames 0..8, ATR tails 0..19; Initiator.exchange with 3 "
-    "arbitrary answers; all PSL shapes in activation; Target with 3 arbitrary requests; llc "
+    "arbitrary answers; all PSL shapes in activation; Target with 3 arbitrary requests (2 + silence after a first DEP_REQ); llc "
     "general bytes up to 9 raw / magic + 8 octets and 20 TLV structures in both roles; llc.run "
     "frames of 0..9 octets; Type 3 commands 0..8 raw and code + 0..6; SNEP 19 / 14 sequences; "
     "connect first frame 2..5 octets",
